@@ -244,6 +244,9 @@ class FnView:
             dk = n.get("dk", "")
             p = norm_path(n.get("path", ""))
             if dk.startswith("Const") or dk.startswith("AssocConst") or dk.startswith("Static"):
+                c = self.prog.consts.get(p)
+                if c is not None and c.get("scalar") is not None and c.get("ty") in INT_TYS:
+                    return ("lit", int(c["scalar"]))
                 return ("const", p)
             if dk.startswith("Ctor"):
                 return ("ctor", p)
@@ -1100,3 +1103,67 @@ def enum_paths(root, want, limit=60000, into_closures=False):
         return res
 
     return P(root)
+
+
+# ------------------------------------------------------------------ straight-line composition
+
+class Unsupported(Exception):
+    pass
+
+
+def subst(t, env):
+    """Replace tracked variables (keys of env are terms) inside t by their current values."""
+    if not isinstance(t, tuple):
+        return t
+    if t in env:
+        return env[t]
+    if t[0] == "bin":
+        return mk_bin(t[1], subst(t[2], env), subst(t[3], env))
+    return tuple(subst(x, env) if isinstance(x, tuple) else x for x in t)
+
+
+def straightline(fv, stmts, tracked):
+    """Compose the assignments of a branch-free statement list over the tracked variables
+    (terms such as ("local", name, id) or ("field", ("self",), f)).  Returns
+    (state, effects): state maps each tracked variable to its value after the list in terms of the
+    values before it; effects is the list of other call terms (with tracked reads substituted)."""
+    state = {v: v for v in tracked}
+    effects = []
+
+    def ev(n):
+        return subst(fv.term(n), {k: v for k, v in state.items() if k != v})
+
+    for s in stmts:
+        x = s["e"] if s.get("k") == "semi" else s
+        k = x.get("k")
+        if k == "let":
+            # immutable lets are inlined by term(); a mutable let (re)initialises a tracked local
+            pat = x["pat"]
+            if pat.get("k") == "pbind":
+                v = ("local", pat["name"], pat["id"])
+                if v in state and x.get("init") is not None:
+                    state[v] = ev(x["init"])
+            continue
+        if k == "assign":
+            lt = fv.term(x["l"])
+            if lt in state:
+                state[lt] = ev(x["r"])
+            else:
+                effects.append(("assign", lt, ev(x["r"])))
+            continue
+        if k == "assignop":
+            lt = fv.term(x["l"])
+            op = x["op"].rstrip("=")
+            if lt in state:
+                state[lt] = mk_bin(op, state[lt], ev(x["r"]))
+            else:
+                effects.append(("assignop", op, lt, ev(x["r"])))
+            continue
+        if k in ("call", "mcall"):
+            effects.append(ev(x))
+            continue
+        if k in ("if", "match", "loop", "for", "while", "ret", "break", "continue"):
+            raise Unsupported("control flow `%s` in a block expected to be straight-line (%s)"
+                              % (k, line_of(x)))
+        effects.append(ev(x))
+    return state, effects
